@@ -43,12 +43,15 @@ OPTIONS = {
     "bit": lambda p: BitShape(BitState.HIGH),
     "null": lambda p: NULL,
     "full": lambda p: FULL,
+    # a path that provides NO value (bare `return`, `x if c else None`): never joined -- the join type's constructor would turn
+    # it into a constant (Unsigned[4](None) is "0000", Bit(None) is 'U'); the alternatives stay separate and _Redirect rejects it
+    "none": lambda p: C.Const(None, "None"),
 }
 
 
 def join_spec(kinds):
     def spec(sx, options):
-        if any(k in ("null", "full") for k in kinds):
+        if any(k in ("null", "full", "none") for k in kinds):
             return None
 
         def holds(res):
@@ -154,6 +157,55 @@ for TK, _, _ in KINDS:
         c = Case(f"{TK.__name__}<-rt-{SK.__name__}", [Built([], lambda env: SObj(VB._Redirect), lambda a: "None", lambda a: None), redirect_target(TK), redirect_source(SK)], redirect_spec(TK))
         c.native = False
         con.cases.append(c)
+
+# constant alternatives: a path without value is not an alternative the target type can represent (the direct assignment
+# `target <<= None` is rejected by every _assign)
+def redirect_none_spec(sx, self, target, source):
+    sx.reject(AssertionError)
+
+
+for TK in [k for k, _, _ in KINDS] + [Bit]:
+    def _target(env, TK=TK):
+        t = SObj(Signal, _value=None, _ref_spec=[], _attributes=[], type=TK[4] if TK is not Bit else Bit)
+        t.fields["_root"] = t
+        return t
+
+    c = Case(f"{TK.__name__}<-None", [Built([], lambda env: SObj(VB._Redirect), lambda a: "None", lambda a: None), Built([], _target, lambda a: "None", lambda a: None), C.Const(None, "None")], redirect_none_spec)
+    c.native = False
+    c.custom_replay = "contracts.c05_join.replay_none_alternative"
+    con.cases.append(c)
+
+_NONE_DESIGN = '''
+from cohdl import Entity, Port, Bit, Unsigned, std
+
+class Top(Entity):
+    clk = Port.input(Bit)
+    c = Port.input(Bit)
+    a = Port.input(Unsigned[4])
+    q = Port.output(Unsigned[4])
+
+    def architecture(self):
+        def opt(x):
+            if x:
+                return
+            return self.a
+
+        @std.sequential(std.Clock(self.clk))
+        def proc():
+            self.q <<= opt(self.c)
+
+t = std.VhdlCompiler.to_string(Top)
+print("ACCEPTED", "NONE_BECAME_ZERO" if '"0000"' in t else "")
+'''
+
+
+def replay_none_alternative(payload):
+    """a helper that returns a value on one path and nothing on the other: the missing value is assigned as zeros"""
+    from contracts.c06_extra import _run_design
+
+    rc, out = _run_design(_NONE_DESIGN)
+    return {"reproduced": rc == 0 and "NONE_BECAME_ZERO" in out, "detail": out[-200:]}
+
 
 con = contract("cohdl._compiler.frontend._value_branch:_try_join", PROPS)
 for n in (1, 2, 3):
